@@ -101,6 +101,14 @@ def check_pattern(ctx, tr, rng, k, j, forced=None):
         ctx.count('uniqueness_checks')
         if len(set(a)) != len(a):
             ctx.disagree('Path.glob yields one path twice', dict(wit, result=a[:20]))
+    else:
+        # with NOUNIQUE the pathlib view keeps glob's duplicates: same multiset, same order
+        ctx.count('nounique_multiset_checks')
+        la = [fold(os.path.normpath(x)) for x in a]
+        lb = [fold(norm_abs(root, x)) for x in b]
+        if sa == sb and la != lb:
+            ctx.disagree('NOUNIQUE: Path.glob does not keep the duplicates / order of glob.glob',
+                         dict(wit, pathlib=[os.path.relpath(x, root) for x in la[:16]], glob=[os.path.relpath(x, root) for x in lb[:16]]))
     # ---- rglob view ------------------------------------------------------------------------------
     ra = []
     if isinstance(pats, str) and not kw:
